@@ -15,6 +15,8 @@
       invalidate     importlib.invalidate_caches -> BasilispImporter.invalidate_caches:
                      [_cache] = {}; the next exec_module falls back to module.__spec__
 
+      dont_write_bytecode  sys.dont_write_bytecode is process state, read by _exec_module
+
     exec_module calls path_stats(filename) itself, at every execution; that is what makes
     the stale spec of [_cache] harmless (filename and cache_filename do not change).  The
     parameter [stats_in_spec] describes the other shape -- find_spec stats the file once and
@@ -33,7 +35,6 @@ Section Process.
   Variable run : code -> option exc.
 
   Variable stats_in_spec : bool.   (* false: the code as it is *)
-  Variable dwb : bool.             (* sys.dont_write_bytecode *)
 
   Notation fs := (fs src).
   Notation result := (result code src).
@@ -47,21 +48,22 @@ Section Process.
     p_next : nat;                 (* number of find_spec calls so far *)
     p_icache : option mspec;      (* BasilispImporter._cache.get(fullname)["spec"] *)
     p_module : option mspec;      (* sys.modules.get(fullname).__spec__ *)
-    p_vars : option code          (* the code that (re)defined the namespace's Vars last *)
+    p_vars : option code;         (* the code that (re)defined the namespace's Vars last *)
+    p_dwb : bool                  (* sys.dont_write_bytecode *)
   }.
 
-  Definition fresh : proc := mkproc 0 None None None.
+  Definition fresh : proc := mkproc 0 None None None false.
 
   (** path_stats: os.stat of the source file NOW *)
   Definition path_stats (f : fs) : Z * Z := (f_mtime f, f_size f).
 
   Definition find_spec (f : fs) (p : proc) : mspec * proc :=
     (mkspec (p_next p) (if stats_in_spec then Some (path_stats f) else None),
-     mkproc (S (p_next p)) (p_icache p) (p_module p) (p_vars p)).
+     mkproc (S (p_next p)) (p_icache p) (p_module p) (p_vars p) (p_dwb p)).
 
   (** create_module (and _load_unlocked's sys.modules[name] = module) *)
   Definition create_module (sp : mspec) (p : proc) : proc :=
-    mkproc (p_next p) (Some sp) (Some sp) (p_vars p).
+    mkproc (p_next p) (Some sp) (Some sp) (p_vars p) (p_dwb p).
 
   Definition with_stats (f : fs) (st : Z * Z) : fs := mkfs (f_src f) (fst st) (snd st) (f_cache f).
 
@@ -75,14 +77,15 @@ Section Process.
   Definition exec_module_h (f : fs) (p : proc) (module_spec : mspec) : result * proc :=
     let sp := match p_icache p with Some s => s | None => module_spec end in
     let st := match sp_stats sp with Some st => st | None => path_stats f end in
-    let r := exec_module code dumps loads src compile run dwb (with_stats f st) in
+    let r := exec_module code dumps loads src compile run (p_dwb p) (with_stats f st) in
     (mkres (r_trace r) (r_raised r) (with_stats (r_fs r) (path_stats f)),
-     mkproc (p_next p) (Some sp) (p_module p) (last_executed (r_trace r) (p_vars p))).
+     mkproc (p_next p) (Some sp) (p_module p) (last_executed (r_trace r) (p_vars p)) (p_dwb p)).
 
   Inductive step :=
   | SImport                              (* importlib.import_module / (require 'ns) *)
   | SReload                              (* importlib.reload / Namespace.reload / (require 'ns :reload) *)
   | SInvalidate                          (* importlib.invalidate_caches() *)
+  | SSetDwb (b : bool)                   (* sys.dont_write_bytecode = b *)
   | SEdit (s : src) (mtime size : Z)     (* the source file is replaced (or only touched) *)
   | SSetCache (d : option bytes).        (* something else happens to the cache file *)
 
@@ -99,7 +102,8 @@ Section Process.
     match s with
     | SEdit s' m z => (ONothing, (mkfs s' m z (f_cache f), p))
     | SSetCache d => (ONothing, (set_cache f d, p))
-    | SInvalidate => (ONothing, (f, mkproc (p_next p) None (p_module p) (p_vars p)))
+    | SInvalidate => (ONothing, (f, mkproc (p_next p) None (p_module p) (p_vars p) (p_dwb p)))
+    | SSetDwb b => (ONothing, (f, mkproc (p_next p) (p_icache p) (p_module p) (p_vars p) b))
     | SImport =>
         match p_module p with
         | Some _ => (OAlready, (f, p))
@@ -108,7 +112,7 @@ Section Process.
             let (r, p2) := exec_module_h f (create_module sp p1) sp in
             let p3 := match r_raised r with
                       | None => p2
-                      | Some _ => mkproc (p_next p2) (p_icache p2) None (p_vars p2)
+                      | Some _ => mkproc (p_next p2) (p_icache p2) None (p_vars p2) (p_dwb p2)
                       end in
             (OLoad r, (r_fs r, p3))
         end
@@ -117,7 +121,7 @@ Section Process.
         | None => (ONotLoaded, (f, p))
         | Some _ =>
             let (sp, p1) := find_spec f p in
-            let p1' := mkproc (p_next p1) (p_icache p1) (Some sp) (p_vars p1) in
+            let p1' := mkproc (p_next p1) (p_icache p1) (Some sp) (p_vars p1) (p_dwb p1) in
             let (r, p2) := exec_module_h f p1' sp in
             (OLoad r, (r_fs r, p2))
         end
@@ -137,6 +141,7 @@ Arguments p_next {code}.
 Arguments p_icache {code}.
 Arguments p_module {code}.
 Arguments p_vars {code}.
+Arguments p_dwb {code}.
 Arguments fresh {code}.
 Arguments path_stats {src}.
 Arguments with_stats {src}.
@@ -148,5 +153,6 @@ Arguments ONotLoaded {code src}.
 Arguments SImport {src}.
 Arguments SReload {src}.
 Arguments SInvalidate {src}.
+Arguments SSetDwb {src}.
 Arguments SEdit {src}.
 Arguments SSetCache {src}.
